@@ -25,6 +25,7 @@ func VerifC07Request() {
 		if kind == 1 && vBool() {
 			// retransmission: the id is still in an inbound QoS 2 exchange (PUBREC sent, no PUBREL yet)
 			cl.State.Inflight.Set(packets.Packet{FixedHeader: packets.FixedHeader{Type: packets.Pubrec}, PacketID: id})
+			pk.FixedHeader.Dup = vBool() // a retransmission normally carries DUP=1
 		}
 	case 2:
 		pk.FixedHeader = packets.FixedHeader{Type: packets.Pubrel, Qos: 1}
